@@ -57,9 +57,14 @@ func (r *FunctionData[T]) UpdateData(remoteWrite, persist bool, newData *T, filt
 	defer r.mux.Unlock()
 
 	if filterPartial == nil && filterDelete == nil && persist {
-		// just set the data
-		r.data = newData
-		return r.data, nil
+		// just set the data; the caller keeps newData (it also becomes the payload of the
+		// data change event), so store a copy of the value instead of the pointer
+		r.data = nil
+		if newData != nil {
+			copiedData := *newData
+			r.data = &copiedData
+		}
+		return newData, nil
 	}
 
 	if !r.SupportsPartialWrite() {
